@@ -21,6 +21,8 @@ type Config struct {
 	MaxConcretize    int
 	MaxAlloc         int
 	AllocCut         int  // >0: after a symbolic make, assume size <= AllocCut
+	AllocLimit       int64 // >0 (C09): every make() must stay within this many bytes (obligation "alloc-bound")
+	StepLimitModels  bool  // (C09) a path that exhausts the step budget is sampled: candidate for non-termination
 	AllocIsViolation bool // giant concrete allocation counts as a violation
 	IfConvert        bool
 	ReverseMaps      bool
@@ -103,6 +105,7 @@ type RunHooks struct {
 }
 
 type Worker struct {
+	shortFallback int // >0: one-shot fallback timeout (s) for the current obligation
 	run          *Run
 	cfg          *Config
 	tb           *TB
